@@ -91,8 +91,9 @@ SPECIAL = {
     'PlanarCog12': Entry(unconstructible='wrapper fixes geometry=1, which the parent constructor rejects'),
     'PlanarCog14': Entry(kwargs=lambda rng: dict(alpha=-1.0, beta=2.0), t=COGT),
     'CylindricalExpansion': Entry(points=pts2((1.1, 2.5), (0.1, 1.5)), dim=2),
-    'ExplosiveArc': Entry(grid=True, slow=True),
-    'RateStick': Entry(grid=True, slow=True),
+    # the node counts have no usable default (the constructors raise "Number of x-nodes must be specified")
+    'ExplosiveArc': Entry(kwargs=lambda rng: dict(xnodes=21, ynodes=41, t_f=1.0), grid=True, slow=True),
+    'RateStick': Entry(kwargs=lambda rng: dict(xnodes=11, ynodes=11, t_f=2.0), grid=True, slow=True),
     'Guderley': Entry(slow=True, points=pts1(0.2, 1.0), t=lambda rng: -0.5),
     'CylindricalSandwich': Entry(points=pts2((0.1, 0.9), (0.1, 1.0)), dim=2, slow=True),
     'Hutchens2': Entry(points=pts2((0.1, 0.9), (0.1, 0.9)), dim=2),
